@@ -4,3 +4,4 @@ import Driver.Arr
 import Driver.Wire
 import Driver.Idx
 import Driver.Trie
+import Driver.Leg
